@@ -1,7 +1,7 @@
 SPECIFICATION Spec
 CONSTANTS
   Classes <- AllClasses
-  MaxModes = 8
+  MaxModes = 10
   MaxActive = 2
   RadExps <- ExpsQ
   KMax = 120
